@@ -29,6 +29,7 @@ type Config struct {
 	Policy       string   `json:"policy"`     // uniform | sticky | starve
 	Sticky       int      `json:"sticky"`     // percent chance to keep the previous goroutine (policy sticky)
 	StepCap      int64    `json:"step_cap"`
+	YieldCap     int64    `json:"yield_cap,omitempty"`      // yield points after which the run is ended like at the step cap
 	MaxIdleMs    int      `json:"max_idle_ms"`              // simulated time without runnable goroutine before quiescence is declared
 	AuxRepeatPct int      `json:"aux_repeat_pct,omitempty"` // percent of the values of the math/rand shim that repeat one of the last four
 	AuxSeed      uint64   `json:"aux_seed"`                 // seed of math/rand shim and other non-decision randomness
@@ -109,31 +110,32 @@ type Stats struct {
 
 // Sim is one simulated execution.
 type Sim struct {
-	mu        sync.Mutex
-	cfg       Config
-	gs        map[uint64]*G
-	all       []*G
-	holder    *G
-	last      *G
-	tape      *Tape
-	aux       *rand.Rand
-	gap       int
-	pctLow    int // policy pct: next priority below everybody else
-	weights   map[string]int
-	seq       atomic.Int64
-	stats     Stats
-	crashes   []Crash
-	abort     bool
-	capHit    bool
-	start     time.Time
-	trace     []string
-	fp        uint64
-	efp       uint64
-	Ext       map[string]interface{}
-	waiters   []*G
-	auxForced []uint64
-	maps      map[unsafe.Pointer][]mapRec
-	races     []MapRace
+	mu          sync.Mutex
+	cfg         Config
+	gs          map[uint64]*G
+	all         []*G
+	holder      *G
+	last        *G
+	tape        *Tape
+	aux         *rand.Rand
+	gap         int
+	pctLow      int // policy pct: next priority below everybody else
+	weights     map[string]int
+	seq         atomic.Int64
+	stats       Stats
+	crashes     []Crash
+	abort       bool
+	capHit      bool
+	start       time.Time
+	trace       []string
+	fp          uint64
+	efp         uint64
+	Ext         map[string]interface{}
+	waiters     []*G
+	auxForced   []uint64
+	yieldCapHit bool
+	maps        map[unsafe.Pointer][]mapRec
+	races       []MapRace
 }
 
 var cur atomic.Pointer[Sim]
@@ -263,6 +265,12 @@ func (s *Sim) yield(site string, force bool) {
 	if s.holder == g {
 		s.stats.Yields++
 		g.site = site
+		if s.cfg.YieldCap > 0 && s.stats.Yields > s.cfg.YieldCap {
+			// the run has passed more yield points than any run of its kind
+			// should: hand over to the scheduler, which ends it
+			s.yieldCapHit = true
+			force = true
+		}
 		if !force {
 			cover[site]++
 			s.gap -= s.weight(site)
@@ -785,7 +793,7 @@ func (s *Sim) Loop() Result {
 			continue
 		}
 		s.stats.Steps++
-		if s.stats.Steps > s.cfg.StepCap {
+		if s.stats.Steps > s.cfg.StepCap || s.yieldCapHit {
 			s.capHit = true
 			s.mu.Unlock()
 			return Result{StepCap: true}
@@ -882,6 +890,16 @@ func M(m interface{}, write bool, site string) {
 	}
 	keep = append(keep, mapRec{g, g.tick, write || own, site})
 	s.maps[p] = keep
+}
+
+// Last tells which goroutine the scheduler resumed last, and where it stood.
+func (s *Sim) Last() GInfo {
+	s.mu.Lock()
+	defer s.mu.Unlock()
+	if s.last == nil {
+		return GInfo{}
+	}
+	return GInfo{Name: s.last.name, Node: s.last.node, Site: s.last.site}
 }
 
 // MapRaces returns the unordered conflicting map accesses seen so far.
